@@ -251,6 +251,7 @@ type vfGen struct {
 	level    int  // 0 while building the top node
 	exprPath string // package path carried by every leaf expression identifier ("" = none)
 	pathField string // "" = every expression leaf carries exprPath; "T.F" = only leaves of that field
+	made     []*Q.Ident // identifiers created with a package path (independent of any tree walk)
 	n        int
 }
 
@@ -342,8 +343,11 @@ func (g *vfGen) leaf(f func() Q.Node) Q.Node {
 
 func (g *vfGen) leafExpr() Q.Expr {
 	id := g.ident()
-	if g.pathField == "" {
+	if g.pathField == "" || g.pathField == "#nested" {
 		id.Path = g.exprPath
+	}
+	if id.Path != "" {
+		g.made = append(g.made, id)
 	}
 	return id
 }
@@ -352,6 +356,9 @@ func (g *vfGen) leafExprAt(typ, field string) Q.Expr {
 	id := g.ident()
 	if g.pathField == "" || g.pathField == typ+"."+field {
 		id.Path = g.exprPath
+	}
+	if id.Path != "" {
+		g.made = append(g.made, id)
 	}
 	return id
 }
@@ -371,7 +378,7 @@ func (g *vfGen) leafSpec() Q.Spec { return &Q.ValueSpec{Names: []*Q.Ident{g.iden
 	w("\tcase \"FieldList\":\n\t\treturn &%sFieldList{Opening: true, Closing: true}\n", q)
 	w("\tcase \"FuncType\":\n\t\treturn &%sFuncType{Func: true, Params: &%sFieldList{Opening: true, Closing: true}}\n", q, q)
 	w("\tcase \"CallExpr\":\n\t\treturn &%sCallExpr{Fun: g.ident()}\n", q)
-	w("\tcase \"Field\":\n\t\treturn &%sField{Type: g.ident()}\n", q)
+	w("\tcase \"Field\":\n\t\treturn &%sField{Type: g.leafExpr()}\n", q)
 	w("\tcase \"File\":\n\t\treturn &%sFile{Name: g.ident()}\n", q)
 	w("\t}\n\tpanic(\"vfGen: no leaf for \" + typ)\n}\n\n")
 
